@@ -70,6 +70,20 @@ def peers_for(tb, tier, rnd):
                   enc_c2s=['aes128-ctr'], mac_c2s=['hmac-sha2-256']))
     P.append(dict(kex=['curve25519-sha256', 'kex-strict-s-v00@openssh.com'], key=['ssh-ed25519'], enc=['aes256-gcm@openssh.com'], mac=['hmac-sha2-512'],
                   enc_c2s=['chacha20-poly1305@openssh.com', 'aes256-cbc'], mac_c2s=['hmac-sha1-etm@openssh.com']))
+    # a spelling the database knows in two categories, advertised in only one of them (and in both): what is advertised as a
+    # cipher says nothing about the MACs, and the other way round
+    cats = ('kex', 'key', 'enc', 'mac')
+    basep = dict(kex=['curve25519-sha256'], key=['ssh-ed25519'], enc=['aes128-ctr'], mac=['hmac-sha2-256'])
+    for a in cats:
+        for b in cats:
+            if a < b:
+                for nm in sorted(set(db[a]) & set(db[b])):
+                    for where in ((a,), (b,), (a, b)):
+                        q = {k: list(v) for k, v in basep.items()}
+                        for w in where:
+                            q[w] = q[w] + [nm]
+                        q['all_sw'] = True
+                        P.append(q)
     n = 3 if tier == 'quick' else 15
     for _ in range(n):
         P.append(dict(kex=pick('kex', rnd.randint(1, 5)), key=pick('key', rnd.randint(1, 4)), enc=pick('enc', rnd.randint(1, 5)),
@@ -84,7 +98,7 @@ def build(tier, rnd, tb):
     for pi, p in enumerate(peers_):
         # quick: each peer meets a third of the banners (rotating), the first two peers meet them all
         for si, sw in enumerate(sws):
-            if tier == 'quick' and pi >= 2 and 'enc_c2s' not in p and (si + pi) % 3 != 0:
+            if tier == 'quick' and pi >= 2 and 'enc_c2s' not in p and not p.get('all_sw') and (si + pi) % 3 != 0:
                 continue
             dh = dict(p.get('dh', {}))
             c = rating.mk_case(len(cases) + 1, kex=p['kex'], key=p['key'], enc=p['enc'], mac=p['mac'], hk=p.get('hk'), dh=dh, sw=sw,
